@@ -19,10 +19,20 @@ def run_job(job):
     common.quiet_stdio()
     scf_driver.install_capture()
     params = mdlib.seqm_params(**job.get("params", {}))
+    if isinstance(params.get("active_state"), list):
+        params["active_state"] = torch.tensor(params["active_state"], dtype=torch.int64)      # one active state per molecule
     mol = scf_driver.make(job["mols"], params, displace=0.1)
     mol.verbose = False
+    molw = None
+    if job.get("warm"):
+        # the same driver object first serves another batch of the same padded shape (other elements / other row order);
+        # both molecule objects exist before the driver is built, so the driver knows every element
+        molw = scf_driver.make(job["warm"], params, displace=0.1)
+        molw.verbose = False
     es = Electronic_Structure(params)
     kw = {}
+    if molw is not None:
+        es(molw)
     es(mol)
     emo_first = mol.e_mo.detach().clone()
     dip_first = mol.dipole.detach().clone() if getattr(mol, "dipole", None) is not None else None
